@@ -1,5 +1,6 @@
 import Driver.QC
 import Driver.Sort
+import Driver.Codec
 /-!
   The model driver (line protocol, DESIGN.md 3.5): reads one case per line on
   stdin, runs the executable Lean model, prints what it predicts.
@@ -22,4 +23,5 @@ def main (args : List String) : IO UInt32 := do
   match args with
   | ["qc"] => loop stdin qcLine; return 0
   | ["sort"] => loop stdin sortLine; return 0
+  | ["codec"] => loop stdin codecLine; return 0
   | _ => IO.eprintln "usage: driver <engine>"; return 2
